@@ -90,6 +90,26 @@ def gen(ctx):
                           plan=[clamp_cfr(0, 1000)], label="sparse + capped cfr"))
         cases.append(Case(40 * B + 5, data=lay, driver=driver, workers=2, bs=3 * B, reflink="never",
                           plan=[clamp_cfr(3, 5)], label="sparse + short cfr"))
+    # 3b. everything at once: a SPARSE source whose length is not a multiple of the file-system block (its last extent overhangs
+    # the end of the file), no kernel copy, and a short read or write in the user-space loop — in the first, a middle and the
+    # LAST (overhanging) range
+    tail = 256 * B + 20000
+    lay3 = [(0, 2 * B), (10 * B, 12 * B), (256 * B, tail)]
+    for driver in drivers:
+        rd = "read" if driver == "parfile" else "pread64"
+        wr = "write" if driver == "parfile" else "pwrite64"
+        for errno in ((E["ENOSYS"],) if quick else (E["ENOSYS"], E["EXDEV"], E["EPERM"])):
+            for bs in ((1 << 20,) if quick else (1 << 20, 3 * B, "noprogress")):
+                cases.append(Case(tail, data=lay3, driver=driver, workers=1, bs=bs, reflink="never",
+                                  plan=[fail_cfr(0, errno)], label="sparse, unaligned length, no kernel copy"))
+                for nth in (1, 2, 3):
+                    for k in ((B,) if quick else (1, B, 3 * B)):
+                        cases.append(Case(tail, data=lay3, driver=driver, workers=1, bs=bs, reflink="never",
+                                          plan=[fail_cfr(0, errno), ("clamp", 2, k, wr, nth, "{dst}")],
+                                          label="sparse, unaligned length, no kernel copy, short write"))
+                        cases.append(Case(tail, data=lay3, driver=driver, workers=1, bs=bs, reflink="never",
+                                          plan=[fail_cfr(0, errno), ("clamp", 2, k, rd, nth, "{src}")],
+                                          label="sparse, unaligned length, no kernel copy, short read"))
     # 4. the build without the Linux backend (libfs/src/fallback.rs)
     for driver in drivers:
         for (size, bs) in [(0, B), (1, B), (10000, 4096), (10000, "noprogress"), (300, 7)]:
@@ -137,6 +157,6 @@ def run(ctx, out):
     out.rule = ("single files under an oracle plan applied by the ptrace supervisor: the n-th copy_file_range (or read/pread/"
                 "write/pwrite of the user-space loops) clamped to k bytes, copy_file_range failed with ENOSYS/EXDEV/EPERM at "
                 "the first/second/every call, FICLONE with EOPNOTSUPP/EINVAL/EXDEV, FIEMAP with EOPNOTSUPP, read/write with "
-                "EINTR, plus the binary built without the Linux backend; non-trivial = an injection fired (or fallback "
+                "EINTR, sparse sources of unaligned length with no kernel copy and a short read / write in each range, plus the binary built without the Linux backend; non-trivial = an injection fired (or fallback "
                 "backend); distinct = distinct (case, plan)")
     datapath.run_cases(ctx, out, gen(ctx), "C05", c01.oracle, nontrivial)
